@@ -164,6 +164,26 @@ def directed_scenarios(tier):
     if tier == "thorough":
         out.append(dict(two("v1win-batch-boundary-200-all", 255, 8, 0, n1=dict(tip="g"), v1Window="all", deadlineMs=30000), allow=200, require=250, final=300))
         out.append(dict(two("v1win-batch-boundary-fork", 130, 120, 110, n1=dict(branch="b"), v1Window="all", deadlineMs=30000), allow=200, require=250, final=300))
+    # undecided, equal-height competing tips (neither sufficiently heavier): the nodes exchange their forks through
+    # the AddBlocks path (header-only side-chain states) and stay put; then ONE node extends its fork by a single
+    # v2 block that reaches the others as a relay -- outline, header, or both; directly or through a third node
+    def grow(sid, relay, trunk=21, d=4, nodes3=False, **kw):
+        sc = dict(id=sid, branches=[dict(name="t", **{"from": ""}, at=0, len=trunk), dict(name="a", **{"from": "t"}, at=trunk, len=d),
+                                    dict(name="b", **{"from": "t"}, at=trunk, len=d)],
+                  nodes=[dict(name="n0", branch="a"), dict(name="n1", branch="b")] + ([dict(name="n2", branch="b")] if nodes3 else []),
+                  edges=[[0, 1]] + ([[2, 1]] if nodes3 else []), gapMs=0, announceMs=250, deadlineMs=20000, winner="", announce=relay,
+                  grow=dict(node=2 if nodes3 else 1, n=1, relay=relay), shape=sid, **H)
+        sc.update(kw)
+        return sc
+    out.append(grow("eqtips-grow-outline", "outline"))
+    out.append(grow("eqtips-grow-header", "header"))
+    out.append(grow("eqtips-grow-both", "both"))
+    out.append(grow("eqtips-grow-outline-via-third", "outline", nodes3=True))
+    out.append(grow("eqtips-grow-outline-postrequire", "outline", trunk=45))
+    if tier == "thorough":
+        out.append(grow("eqtips-grow-outline-d1", "outline", d=1))
+        out.append(grow("eqtips-grow-outline-d9-v1win", "outline", trunk=19, d=9, v1Window="alt"))
+        out.append(grow("eqtips-grow-both-via-third", "both", nodes3=True, gapMs=400))
     # heaviest is not longest: non-trivial initial difficulty, a 150-block fork mined ahead of schedule (difficulty
     # rises) is sufficiently heavier than a 165-block fork mined far behind schedule (difficulty falls)
     out.append(dict(id="heavier-shorter-150-165", hardTarget=True, shorterWinner=True,
@@ -262,6 +282,7 @@ def leg_m_jobs(tier):
     jobs = [("SyncMC", "Sync_honest_quick.cfg", "Sync honest 2 nodes, all assignments of TreeA: safety", 4, 600),
             ("SyncMC", "Sync_honest_live2.cfg", "Sync honest 2 nodes: Convergence under weak fairness", 4, 900),
             ("SyncMC", "Sync_honest_v1win.cfg", "Sync honest 2 nodes, v1 and v2 blocks inside the [allow, require) window, request path by base height: safety + Convergence", 4, 900),
+            ("SyncMC", "Sync_honest_grow.cfg", "Sync honest 2 nodes, undecided equal-height tips, then one node mines and relays (header / outline): safety + Convergence", 4, 900),
             ("SyncMC", "Sync_honest_cp2.cfg", "Sync honest 2 nodes, one bootstrapped from a checkpoint (history anchored): safety + Convergence", 4, 900)]
     if tier == "quick":
         jobs.append(("SyncMC", "Sync_honest_line3q.cfg", "Sync honest 3 nodes in a line, TreeC: safety + Convergence", 6, 900))
@@ -744,9 +765,10 @@ def selftest():
     for cfg, what in (("Sync_honest_line3_noannounce.cfg", "no re-announcement: Convergence fails (swallowed relay)"),
                       ("Sync_honest_line3_headeronly.cfg", "header-only announcements: Convergence fails (one block behind)"),
                       ("Sync_honest_cp2_dev.cfg", "history not anchored at a checkpoint node's lowest block: Convergence fails"),
+                      ("Sync_honest_grow_dev.cfg", "outline handler tests the height instead of the parent id: the honest announcer of a competing fork's next block is banned, NoHonestBan fails"),
                       ("Sync_honest_v1win_dev.cfg", "checkpoint path chosen from the allow height: a v1 base block in the window can never be fetched, Convergence fails")):
         x = vlib.run_tlc(wd, "SyncMC", cfg, workers=4, timeout=900)
-        good = x.exit != 0 and "Temporal property Convergence was violated" in (x.error or "") + x.out
+        good = x.exit != 0 and ("Temporal property Convergence was violated" in (x.error or "") + x.out or x.violated == "NoHonestBan")
         log("selftest 3 (%s): %s" % (what, "ok" if good else "FAILED"))
         ok3 = ok3 and good
     # 4. the convergence oracle bites: a network in which nobody holds the last two blocks of the branch the
